@@ -49,6 +49,7 @@ type Exchange struct {
 	StallAt     time.Duration   `json:"stall_at,omitempty"`
 	Completed   bool            `json:"completed"`
 	FaultFired  string          `json:"fault,omitempty"`
+	FaultAt     time.Duration   `json:"fault_at,omitempty"`
 	WriteErr    string          `json:"write_err,omitempty"`
 	DoneAt      time.Duration   `json:"done_at"`
 	PeerGoneAt  time.Duration   `json:"peer_gone_at,omitempty"`
@@ -305,6 +306,7 @@ func (b *Backend) finish(c *Conn, ex *Exchange) {
 func (b *Backend) fire(c *Conn, ex *Exchange, f *Fault) bool {
 	name := f.Kind + "@" + f.At
 	ex.FaultFired = name
+	ex.FaultAt = b.sim.Now()
 	b.sim.Fault("conn." + name)
 	switch f.Kind {
 	case "rst":
@@ -415,6 +417,9 @@ func (b *Backend) respond(c *Conn, ex *Exchange, r *Resp) bool {
 		ctype = "application/json"
 	}
 	hdrs := [][2]string{{"Content-Type", ctype}}
+	if ctype == "none" {
+		hdrs = nil // a backend that declares no Content-Type at all
+	}
 	hdrs = append(hdrs, r.Headers...)
 	hdrs = append(hdrs, [2]string{"X-Backend", b.cfg.Name}, [2]string{"X-Backend-Exchange", fmt.Sprintf("%s.%d", b.cfg.Name, ex.Idx)})
 	switch framing {
